@@ -43,11 +43,11 @@ def run_family(ctx, pid, cfg, runs, why_prefix, nontrivial, timeout=1500, classi
             if classify:
                 sig = classify(sig, e, events, r["line"], r)
             bad_lines.add(r["line"])
-            ctx.violation(sig, {"test": test, "line": r["line"], "kind": e["kind"], "mode": e["mode"], "ctx": e["ctx"], "ev": e["ev"],
+            ctx.violation(sig, {"test": test, "line": r["line"], "kind": e.get("kind"), "mode": e.get("mode"), "ctx": e.get("ctx"), "ev": e["ev"], "rewritten": e.get("rqs"),
                                 "params": {k: e[k] for k in ("limits", "cancel", "maxdoc", "maxmatch", "stream", "config") if k in e},
-                                "query": e["qs"], "expected": r["expected"], "content": content,
+                                "query": e.get("qs"), "expected": r["expected"], "content": content,
                                 "observed_files": [{k: f.get(k) for k in ("doc", "branches", "lm", "cm") if k in f}
-                                                   for f in e["files"] if not d or f["doc"] == d][:4]})
+                                                   for f in e.get("files", []) if not d or f["doc"] == d][:4]})
         for e in events:
             if e["ev"] == "search":
                 searches += 1
